@@ -160,6 +160,6 @@ where
     }
 
     fn finish(&mut self, _: &Header) -> io::Result<()> {
-        Ok(())
+        self.inner.flush()
     }
 }
